@@ -154,6 +154,18 @@ func TestC06(t *testing.T) {
 	enum("enum-bool", gen.BoolAlphabet(), focusLen+1)
 	enum("enum-range", gen.RangeAlphabet(), focusLen+map[bool]int{false: 0, true: 1}[cfg.Thorough()])
 	enum("enum-unary", gen.UnaryAlphabet(), focusLen)
+	// a complete range takes seven tokens, more than the enumerations above reach in the
+	// quick tier: every five-token continuation of "a :" over the range alphabet
+	st.Stream("enum-range-frame", true, "a : followed by every token sequence of length 5 over the range alphabet x df in {none, dflt}")
+	frame := []gen.Tok{gen.Term(gen.Word("a")), gen.Sym(":")}
+	gen.EnumSeqs(gen.RangeAlphabet(), 5, cfg.Shard, cfg.NShards, func(seq []gen.Tok) {
+		if len(seq) < 5 {
+			return
+		}
+		cp := append(append([]gen.Tok(nil), frame...), seq...)
+		run("enum-range-frame", TokCase{Toks: cp})
+		run("enum-range-frame", TokCase{Toks: cp, DF: "dflt"})
+	})
 
 	dfGen := rapid.SampledFrom([]string{"", "", "dflt", "my field"})
 	pool := append(gen.FullAlphabet(), gen.RawTerm(`x\\*`), gen.RawTerm(`a\\\\b`), gen.RawTerm(`b\*`), gen.RawTerm(`c\\?d`), gen.RawTerm(`\\`), gen.RawTerm(`a\*b*`), gen.RawTerm("NaN"), gen.RawTerm("0x1F"), gen.RawTerm("$"), gen.RawTerm(","), gen.RawTerm("!"), gen.RawTerm("#"), gen.RawTerm("&&"), gen.RawTerm("\x00"), gen.RawTerm("\u00a0"))
